@@ -576,6 +576,14 @@ fn run_hist(case: &Value, scratch: &StdPath) -> String {
                     std::fs::hard_link(&paths[k as usize], &p).map_err(|e| e.to_string())?;
                     share.push(share[k as usize]);
                 }
+                None if m["symlink_out"].as_bool().unwrap_or(false) => {
+                    // the member is a symbolic link (report made with -S); its data lives outside the scanned tree
+                    let target = dir.join("outside").join(format!("x{j}"));
+                    mkparents(&target);
+                    std::fs::write(&target, &d0).map_err(|e| e.to_string())?;
+                    std::os::unix::fs::symlink(&target, &p).map_err(|e| e.to_string())?;
+                    share.push(j);
+                }
                 None => {
                     std::fs::write(&p, &d0).map_err(|e| e.to_string())?;
                     share.push(j);
@@ -592,6 +600,7 @@ fn run_hist(case: &Value, scratch: &StdPath) -> String {
         gc.paths = vec![FPath::from(&tree)];
         gc.base_dir = FPath::from(&dir);
         gc.match_links = case["mlinks"].as_bool().unwrap_or(false);
+        gc.symbolic_links = members.iter().any(|m| m["symlink_out"].as_bool().unwrap_or(false));
         gc.output = Some(dir.join("report"));
         if s(case, "format") == "json" {
             gc.format = fclones::config::OutputFormat::Json;
@@ -619,7 +628,9 @@ fn run_hist(case: &Value, scratch: &StdPath) -> String {
                 let j = o["m"].as_u64().unwrap() as usize;
                 let p = &paths[j];
                 let kind = s(o, "kind");
-                let is_file = statx(p, false).map(|x| x.mode & libc::S_IFMT == libc::S_IFREG).unwrap_or(false);
+                // ordinary writes go through a symbolic link to the data it leads to
+                let is_file = statx(p, true).map(|x| x.mode & libc::S_IFMT == libc::S_IFREG).unwrap_or(false);
+                let is_link = statx(p, false).map(|x| x.mode & libc::S_IFMT == libc::S_IFLNK).unwrap_or(false);
                 let cur = if is_file { std::fs::read(p).unwrap_or_default() } else { vec![] };
                 let fill = o["fill"].as_u64().unwrap_or(66) as u8;
                 let e = |x: std::io::Error| format!("op {kind}: {x}");
@@ -668,6 +679,19 @@ fn run_hist(case: &Value, scratch: &StdPath) -> String {
                         }
                         filetime::set_file_mtime(p, ft_of_ns(now_ns())).map_err(e)?;
                         content_op = Some("touch".to_string());
+                    }
+                    "repoint_same" | "repoint_diff" => {
+                        // re-point a link member at a NEW file (created now, so its stamp is the time of the operation)
+                        if !is_link {
+                            continue;
+                        }
+                        let d: Vec<u8> = if kind == "repoint_same" { vec![fill; len] } else { vec![fill; len + 2] };
+                        let target = dir.join("outside").join(format!("rp{}_{}", j, now_ns()));
+                        mkparents(&target);
+                        std::fs::write(&target, &d).map_err(e)?;
+                        std::fs::remove_file(p).map_err(e)?;
+                        std::os::unix::fs::symlink(&target, p).map_err(e)?;
+                        path_op = Some(format!("re:{}", hexd(&d)));
                     }
                     "unlink" | "recreate_same" | "recreate_diff" | "recreate_equal" | "dir" | "fifo" | "symlink_dangling" | "symlink_dir" => {
                         match statx(p, false) {
@@ -764,6 +788,7 @@ fn run_hist(case: &Value, scratch: &StdPath) -> String {
             "mv" => DedupeOp::Move(Arc::new(FPath::from(&movedir))),
             _ => return Err("op".into()),
         };
+        let hpats = |k: &str| -> Vec<Pattern> { strs(case, k).iter().map(|g| Pattern::glob(g).expect("glob")).collect() };
         let config = DedupeConfig {
             rf_over: Some(case["n"].as_u64().map(|n| n as usize).unwrap_or(gc.rf_over())),
             priority: case["prio"].as_array().unwrap().iter().map(|p| priority_of(p.as_u64().unwrap())).collect(),
@@ -772,8 +797,13 @@ fn run_hist(case: &Value, scratch: &StdPath) -> String {
             modified_before: Some(ts),
             // `--isolate` roots (given to the dedupe command, or inherited from the header by run_dedupe)
             isolated_roots: strs(case, "iso").iter().map(|r| FPath::from(tree.join(r))).collect(),
+            keep_name_patterns: hpats("kn"),
+            keep_path_patterns: hpats("kp"),
+            name_patterns: hpats("dn"),
+            path_patterns: hpats("dp"),
             ..DedupeConfig::default()
         };
+        let pats = [hpats("kn"), hpats("kp"), hpats("dn"), hpats("dp")];
         // ---- state of every path right before the dedupe run
         let devices = DiskDevices::new(&std::collections::HashMap::new());
         let target_dir = FPath::from(&movedir);
@@ -792,14 +822,17 @@ fn run_hist(case: &Value, scratch: &StdPath) -> String {
                 None => (0, pos as u64, "-".to_string(), "-".to_string(), (0, 0)),
             };
             let same_mount = devices.get_mount_point(&FPath::from(p)) == devices.get_mount_point(&target_dir);
+            let name = p.file_name().map(|n| n.to_string_lossy().to_string()).unwrap_or_default();
+            let full = p.to_string_lossy().to_string();
             mems.push(format!(
-                " {} {} {} {} {} {},{} {} {} {} {}",
+                " {} {} {} {} {} {},{} {} {} {} {} {} {} {} {}",
                 path_hex(p), dev, ino, at, bt, ct.0, ct.1, m0, t_read, same_mount as u8,
+                bits(&pats[0], &name), bits(&pats[1], &full), bits(&pats[2], &name), bits(&pats[3], &full),
                 if ops_of[*j].is_empty() { "-".to_string() } else { ops_of[*j].join(",") }
             ));
         }
         let line = format!(
-            "H {} {} {} {} {} {} {} {} {} |{}",
+            "H {} {} {} {} {} {} {} {} {},{},{},{} {} |{}",
             match opname {
                 "mv" => format!("mv:{}", path_hex(&movedir)),
                 o => o.to_string(),
@@ -811,6 +844,7 @@ fn run_hist(case: &Value, scratch: &StdPath) -> String {
             if config.priority.is_empty() { "-".to_string() } else { case["prio"].as_array().unwrap().iter().map(|p| p.to_string()).collect::<Vec<_>>().join(",") },
             glen,
             if config.isolated_roots.is_empty() { "-".to_string() } else { strs(case, "iso").iter().map(|r| path_hex(&tree.join(r))).collect::<Vec<_>>().join(",") },
+            pats[0].len(), pats[1].len(), pats[2].len(), pats[3].len(),
             if d0.is_empty() { "-".to_string() } else { hex_comp(&d0) },
             mems.join(" ;")
         );
